@@ -64,7 +64,7 @@ Theorem sig_structure_verifies keystore ecdsa eddsa eddsa_ph (pub : bytes -> byt
   unsigned_input kvs w old -> spec_cose_alg alg = Some id -> 0 <= kid < 2 ^ 64 ->
   sign_envelope keystore ecdsa eddsa eddsa_ph ent (CTag t (CMap kvs)) kn kid alg ctx action = Ok (env', ent') ->
   exists d0 rest dg sig kind key,
-    old = CBytes d0 :: rest /\ py_loads (CBytes d0) = Ok dg /\ keystore kn = Some (kind, key)
+    old = CBytes d0 :: rest /\ py_loads (CBytes d0) = Ok dg /\ keystore ctx kn = Some (kind, key)
     /\ (match kind with KEc ks => 0 <= ks | _ => True end -> spec_key_matches kind alg = true)
     /\ same_but_wrapper (CTag t (CMap kvs)) env' w (encode (CArray (old ++ [CBytes (encode (cose_sign1 (encode (spec_protected id kid)) sig))])))
     /\ cose_verify ecdsa_verify eddsa_verify eddsa_ph_verify kind (pub key) alg
